@@ -6,7 +6,7 @@ from sa.loader import AnalysisError, norm, walk_local
 from sa.shapes import consumption, has_unknown, flat, Shaper
 from sa.cfg import cfg_of
 from sa.spec import avro_wire as spec
-from .common import analysis, tokens, names_in
+from .common import analysis, tokens, names_in, cmp_texts
 from .c05 import generators, gen_shape, block_loop, block_writer_shape, block_reader_shape, compress_exprs, raw_var_sources, _enclosing
 
 PROP = "C04"
@@ -192,7 +192,7 @@ def run(ctx):
         ok = norm(enc[0].args[0]) == "self.io" and cfg.dominates(en, ic) and cfg.dominates(ic, dc) and isinstance(inc[0].op, ast.Add) and norm(inc[0].value) == "1"
         ctx.check("C04.R3", "write: encode into the pending buffer, then block_count += 1, then threshold test", ok, wr.where(inc[0]), f"Writer.write: order of {norm(enc[0])[:40]} / {norm(inc[0])} / dump", "the record must be encoded into self.io before the count is incremented by one, and the dump test must follow both")
         g = [gt for gt in guard_texts(cfg, dc) if "sync_interval" in gt[0]]
-        okg = len(g) == 1 and g[0][1] == "true" and g[0][0] in ("self.io._fo.tell() >= self.sync_interval",)
+        okg = len(g) == 1 and g[0][1] == "true" and g[0][0] in cmp_texts("self.io._fo.tell()", ">=", "self.sync_interval")
         ctx.check("C04.R3", "write: dump when pending bytes >= sync_interval", okg, wr.where(dcall[0]), f"Writer.write: dump under {g}", "a block must be emitted as soon as the pending buffer reaches sync_interval bytes")
     fl = W.methods["flush"]
     flush_rule(ctx, a, fl, "C04.R3")
